@@ -119,6 +119,15 @@ T = {
  "C13-6": ("C13", "d77d3e0", "snapshot with two heads loaded into an instance that already holds one of them", ["C13"], "VIOLATION (native replay) by VerifC13Snapshot (partly-held)"),
  "C15-6": ("C15", "d77d3e0", "Load(n), growth without a load, Load(m) with n <= m < held", ["C15"], "VIOLATION (native replay) by VerifC15Sequence"),
  "C19-6": ("C19", "d77d3e0", "progress at N on an open store, then Load(k), 0 < k < N", ["C19"], "VIOLATION (native replay) by VerifC19History (loaded-while-open)"),
+ # round 11 (base d77d3e0)
+ "C01-7": ("C01", "d77d3e0", "a restarted event-log replica whose Load overlaps the Sync of the head it has cached", ["C01"], "VIOLATION (interpreter-schedule, P=1) by VerifC01Overlap"),
+ "C05-7": ("C05", "d77d3e0", "two concurrent writers, the second queued on muWrite while the first appends; crash after the first is acknowledged", ["C05"], "VIOLATION (interpreter-schedule, P=1) by VerifC05Burst"),
+ "C06-7": ("C06", "d77d3e0", "a replication batch completing during Load (staging log swapped in afterwards), then a local put on a key the batch wrote", ["C06"], "VIOLATION (interpreter-schedule, P=1) by VerifC06SeenThenPut"),
+ "C07-7": ("C07", "d77d3e0", "PutAll with the same _id twice, the later member equal to the stored value; or PutAll racing a remote delete", ["C07", "C01"], "VIOLATION (native replay) by VerifC01Docs (batch postcondition)"),
+ "C10-6": ("C10", "d77d3e0", "a flush holding a valid log followed by a log that adds nothing; store with a materialised index", ["C10"], "VIOLATION (native replay) by VerifC10Mixed (view oracle)"),
+ "C14-7": ("C14", "d77d3e0", "Create over an existing local database with CreateDBOptions.Directory set to another directory", ["C14"], "VIOLATION (native replay) by VerifC14Reopen"),
+ "C16-7": ("C16", "d77d3e0", "a bus subscriber stalled for at least 146 events, then reading again", ["C16"], "VIOLATION by VerifC05Crash (late reader)"),
+ "C20-7": ("C20", "d77d3e0", "Connect / Send to the local peer's own id", ["C20"], "VIOLATION (native replay) by VerifC20Monitor (channel-with-self)"),
 }
 for seed, (prop, base, needs, by, note) in T.items():
     d = os.path.join(V, "seeded", seed)
